@@ -218,13 +218,23 @@ Definition mentions_tag (a : atom) (t : nat) : bool :=
   | _ => false
   end.
 
+(* all values the cube explicitly excludes for expression e *)
+Fixpoint excluded (c : cube) (e : sexpr) : list bytes :=
+  match c with
+  | [] => []
+  | (AB (BIn e' l), false) :: r => if sexpr_eq_dec e e' then l ++ excluded r e else excluded r e
+  | _ :: r => excluded r e
+  end.
+
 Definition entails (c : cube) (l : lit) : bool :=
   lit_mem l c ||
   match l with
   | (AB (BIn e vs), pol) =>
       match possible c e with
       | Some ps => forallb (fun p => Bool.eqb (mem_bytes p vs) pol) ps
-      | None => false
+      | None =>
+          negb pol && negb (match vs with [] => true | _ => false end) &&
+          forallb (fun v => mem_bytes v (excluded c e)) vs
       end
   | (AB (BNil t), false) => existsb (fun l' => mentions_tag (fst l') t) c
   | _ => false
@@ -234,6 +244,9 @@ Definition neg_lit (l : lit) : lit := (fst l, negb (snd l)).
 
 (* cube c makes cube x false *)
 Definition refutes (c x : cube) : bool := existsb (fun l => entails c (neg_lit l)) x.
+
+(* no message satisfies c *)
+Definition unsat (c : cube) : bool := refutes c c.
 
 (* if c holds then entry e holds *)
 Definition forces (c : cube) (e : entry) : bool :=
